@@ -103,11 +103,15 @@ theorem keepsM_trimLeft (y : Bytes) : KeepsM y trimLeftM := by
 
 theorem keepsM_trimRight (y : Bytes) : KeepsM y trimRightM := fun _ => .ret _ rfl
 
+theorem keepsM_writeVerbatim (y : Bytes) (b : Bytes) : KeepsM y (writeVerbatimM b) := by
+  unfold writeVerbatimM
+  exact keepsM_bind (keepsM_write y []) (fun _ => keepsM_bind (keepsM_write y b) (fun _ => keepsM_flush y))
+
 theorem keepsM_writeAll (y : Bytes) : ∀ cs, KeepsM y (writeAllM cs)
   | [] => keepsM_pure _ ()
   | c :: cs => by
     unfold writeAllM
-    exact keepsM_bind (keepsM_write y c) (fun _ => keepsM_writeAll y cs)
+    exact keepsM_bind (keepsM_writeVerbatim y c) (fun _ => keepsM_writeAll y cs)
 
 /-- what holds of every possible result holds of the result on a fault-free writer -/
 theorem AllRet.runPure {α} {Q : α → Prop} {p : Prog α} (h : AllRet Q p) (out : Bytes) (a : α)
